@@ -516,6 +516,13 @@ package table
 //@   pure
 //@   modifies nothing
 //@   ensures result == (ec.GetTypes() < bgp.EC_TYPE_NON_TRANSITIVE_TWO_OCTET_AS_SPECIFIC)
+// from C17 "routes received from a VRF neighbour are exported with the VRF's RD and export targets": every family a
+// VRF neighbour may negotiate is converted - the route never goes on unchanged (newFamily stays 0 only on the
+// "not a VRF family" exit); flowspec is one of those families (AddPeer allows it, Vrf.ToGlobalPath converts it)
+//@ func (*Path).ToGlobal
+//@   requires p != nil && vrf != nil
+//@   claims at-return
+//@   at-return requires (newFamily == 0) ==> (rf != bgp.RF_FS_IPv4_UC && rf != bgp.RF_FS_IPv6_UC && rf != bgp.RF_IPv4_UC && rf != bgp.RF_IPv6_UC)
 //@ func CanImportToVrf
 //@   pure
 //@   requires v != nil && path != nil
